@@ -11,6 +11,7 @@ import Driver.Ops.Meta
 import Driver.Ops.EncChar16
 import Driver.Ops.Spec
 import Driver.Ops.SpecEnc
+import Driver.Ops.StrSink
 /-!
 Model driver: reads operation lines `op args… => impl-result` on stdin,
 recomputes the right-hand side with the Lean model and prints
@@ -24,7 +25,7 @@ Each `Driver/Ops/*.lean` module contributes a handler
 namespace Driver
 
 def handlers : List (String → List String → Option (Option String)) :=
-  [Ops.label, Ops.dec, Ops.valid, Ops.mem, Ops.cls, Ops.encchar, Ops.enc, Ops.oneshot, Ops.metaOp, Ops.encchar16, Ops.specdec, Ops.specenc]
+  [Ops.label, Ops.dec, Ops.valid, Ops.mem, Ops.cls, Ops.encchar, Ops.enc, Ops.oneshot, Ops.metaOp, Ops.encchar16, Ops.specdec, Ops.specenc, Ops.zerotail]
 
 /-- model result for one operation, or `none` if the line is not understood -/
 def runOp (op : String) (args : List String) : Option String :=
